@@ -1,7 +1,7 @@
 #!/bin/bash
 # tools/seedcheck.sh <ID> <dir with patch.diff demo.py notes.md> [extra check ids...]
 # Confirms a seeded change (tests pass, demo fails with / passes without) and runs ./check <ID> quick against it in a scratch worktree.
-ID=$1; D=$2; shift 2
+ID=$1; D=$(realpath "$2"); shift 2
 V=/verif
 W=$(mktemp -d /tmp/vfseed.XXXXXX)
 git -C /repo worktree add -q --detach "$W/r" HEAD || exit 2
